@@ -35,6 +35,7 @@ type c24Batch struct {
 	seq     int64
 	objs    []int
 	flushes []FlushChannel
+	live    []int // the emitted slice itself (not a copy): must not change when a writer later touches its own slice
 	openBefore bool // every flush channel was still open right before Close
 	closedAfter bool
 }
@@ -76,7 +77,7 @@ func c24Consumer(q *Queue[int], stop chan struct{}, closing *atomic.Int64, slow 
 						time.Sleep(d)
 					}
 				}
-				b := c24Batch{seq: req.SequenceNumber, objs: append([]int(nil), req.Objects...), flushes: append([]FlushChannel(nil), req.flushChans...), openBefore: true, closedAfter: true}
+				b := c24Batch{seq: req.SequenceNumber, live: req.Objects, objs: append([]int(nil), req.Objects...), flushes: append([]FlushChannel(nil), req.flushChans...), openBefore: true, closedAfter: true}
 				for _, c := range req.flushChans {
 					if c24IsClosed(c) {
 						b.openBefore = false
@@ -246,7 +247,7 @@ func c24WaitDrained(got *[]c24Batch, mu *sync.Mutex, lastSeq int64, wantObjs int
 }
 
 func TestVerifC24(t *testing.T) {
-	rep := vfNewReport("C24", "A: generated single-writer scenarios (capacity 0-6, batch size -1..5, no timer, 0-40 Write/Flush ops, 0-3 objects per write, optional flush channel), diffed exactly, non-trivial when at least two batches were emitted and one was cut by a Flush; B: concurrent runs (2-5 writers x 5-40 writes, random flushes, 1-3 ms timer or none, fast or slow consumer) checked by the property and replayed on the model by a schedule constructed from the observation, non-trivial when batches of different sizes were emitted; C: stalled-consumer scenarios (2-6 writes with pauses around a 1-3 ms timeout while nobody reads C, then the consumer starts; no Flush); distinct by emitted batch structure")
+	rep := vfNewReport("C24", "A: generated single-writer scenarios (capacity 0-6, batch size -1..5, no timer, 0-40 Write/Flush ops, 0-3 objects per write, optional flush channel), diffed exactly, non-trivial when at least two batches were emitted and one was cut by a Flush; B: concurrent runs (2-5 writers x 5-40 writes, random flushes, 1-3 ms timer or none, fast or slow consumer) checked by the property and replayed on the model by a schedule constructed from the observation, non-trivial when batches of different sizes were emitted; D: 2-3 sources writing interleaved sub-slices (spare capacity overlapping their later writes) of their own arrays and overwriting the arrays after emission; C: stalled-consumer scenarios (2-6 writes with pauses around a 1-3 ms timeout while nobody reads C, then the consumer starts; no Flush); distinct by emitted batch structure")
 	defer rep.Write()
 	// checkpoint: findings so far plus a crash marker are on disk while goroutines that could
 	// panic the process are running; the final Write (deferred) replaces it
@@ -560,6 +561,82 @@ func TestVerifC24(t *testing.T) {
 		if i == 0 {
 			rep.Sample(map[string]interface{}{"part": "B", "cap": maxSize, "batch_size": batchSize, "timeout_ns": int64(timeout), "group_sizes": shape})
 		}
+	}
+
+	// ---- D: value semantics / ownership ----------------------------------------------------
+	// Two sources hand the queue SUB-SLICES s[i:i+k] of their own backing arrays (spare capacity
+	// that overlaps their later, still pending writes), interleaved; afterwards, once everything
+	// has been emitted, the sources overwrite their arrays. What is emitted must be the values
+	// written at Write time, and an emitted batch must not change when a writer touches its own
+	// slice afterwards (the queue owns what it emits). Single goroutine, no timer: exact diff too.
+	nD := vfScale(60, 3000)
+	for i := 0; i < nD; i++ {
+		batchSize := 2 + r.Intn(4)
+		q := New[int](16, batchSize, 0)
+		stop := make(chan struct{})
+		got, mu, cdone := c24Consumer(q, stop, nil, nil)
+		nSrc := 2 + r.Intn(2)
+		per := 2 + r.Intn(4)
+		chunk := 1 + r.Intn(2)
+		backing := make([][]int, nSrc)
+		for sIdx := range backing {
+			backing[sIdx] = make([]int, per*chunk)
+			for k := range backing[sIdx] {
+				backing[sIdx][k] = (sIdx+1)*1000 + k
+			}
+		}
+		ops := []string{fmt.Sprintf("new 16 %d 0", batchSize)}
+		out := []string{"ok"}
+		var writes []c24Write
+		var base int64 = -1
+		for k := 0; k < per; k++ {
+			for sIdx := 0; sIdx < nSrc; sIdx++ {
+				sub := backing[sIdx][k*chunk : (k+1)*chunk] // cap reaches to the end of the source's array
+				seq, err := q.Write(sub, nil)
+				if err != nil {
+					t.Fatalf("write: %v", err)
+				}
+				if base < 0 {
+					base = seq - 1
+				}
+				vals := append([]int(nil), sub...) // the values at Write time
+				writes = append(writes, c24Write{seq: seq, objs: vals, flush: -1})
+				ops = append(ops, fmt.Sprintf("write %s -", c24Ints(vals)), "settle")
+				out = append(out, fmt.Sprint(seq-base), "ok")
+			}
+		}
+		q.Flush()
+		ops = append(ops, "flush", "settle")
+		out = append(out, "ok", "ok")
+		wantObjs := nSrc * per * chunk
+		drained := c24WaitDrained(got, mu, writes[len(writes)-1].seq, wantObjs, false)
+		close(stop)
+		<-cdone
+		q.Close()
+		replay := map[string]interface{}{"batch_size": batchSize, "sources": nSrc, "writes_per_source": per, "chunk": chunk,
+			"pattern": "source s writes backing_s[k*chunk:(k+1)*chunk] for k = 0.. , sources interleaved; then Flush", "ops": ops}
+		if !drained {
+			rep.Fail("D:not-drained-after-flush", "a final Flush did not bring out every written element within 20 s", replay)
+		}
+		groups, _ := c24Check(rep, "D", batchSize, writes, *got, replay)
+		ops = append(ops, "emitted")
+		out = append(out, c24Emitted(base, writes, *got, groups))
+		allOps = append(allOps, ops)
+		allImpl = append(allImpl, out)
+		// now the sources reuse their arrays; what the consumer holds must not move
+		for sIdx := range backing {
+			for k := range backing[sIdx] {
+				backing[sIdx][k] = -7
+			}
+		}
+		for bi, b := range *got {
+			if c24Ints(b.live) != c24Ints(b.objs) {
+				rep.Fail("D:emitted-batch-aliases-a-writers-slice", fmt.Sprintf("batch %d was %s when received and reads %s after the writers overwrote their own slices", bi, c24Ints(b.objs), c24Ints(b.live)), replay)
+				break
+			}
+		}
+		rep.Case(fmt.Sprintf("D:%d:%d:%d:%d", batchSize, nSrc, per, chunk), true)
+		rep.Count("D:aliasing-subslice-scenarios")
 	}
 
 	// ---- C: stalled consumer, timer only (no Flush at all) ------------------------------
